@@ -8,7 +8,7 @@
   `EvalCtx.evaluate` / `EvalCtx.declarations` along chains of imported names, and the three request
   shapes of the harness (assist `m.` / `m.x.`, location of `m.x`, lint of `from m import *`).
 
-  Parameters (outside the code): the disk (`Disk`), the clock that stamps writes, the content of a
+  Parameters (outside the code): the disk (`Disk`), the mtime every write gives its file, the content of a
   module reduced to its top-level binding structure (`Src`), Python's recursion limit (`fuel`).
   Relative imports go through `norm_package` and its `_norm_cache` (Norm.lean).
 -/
@@ -96,14 +96,17 @@ structure St where
   ctx : List Mod
   missing : List Mod
   norm : Norm.Cache := []                    -- `_norm_cache`
+  /-- seeded-change knob, `false` in the code as it is: `SourceModule.changed` compares with `<` -/
+  lt : Bool := false
   deriving DecidableEq, Repr, Inhabited
 
-def St.empty : St := ⟨[], [], [], []⟩
+def St.empty : St := ⟨[], [], [], [], false⟩
 
 inductive Variant
   | pinned       -- before b5a1370: only the asked-for module is re-stat'ed
   | coarseOnly   -- b5a1370 without 07fdbb8
   | current
+  | ltChanged    -- the current tree with `changed` written as `self.mtime < getmtime(...)`
   deriving DecidableEq, Repr, Inhabited
 
 inductive Err
@@ -111,6 +114,12 @@ inductive Err
   deriving DecidableEq, Repr, Inhabited
 
 def stat (D : Disk) (m : Mod) : Option Nat := (get D m).map (·.mtime)
+
+/-- `SourceModule.changed`: `self.mtime != getmtime(self.filename)` (a vanished file counts as changed) -/
+def changedB (lt : Bool) (now : Option Nat) (cached : Nat) : Bool :=
+  match now with
+  | none => true
+  | some t => if lt then decide (cached < t) else decide (cached ≠ t)
 
 def addMissing (st : St) (m : Mod) : St :=
   if m ∈ st.missing then st else { st with missing := m :: st.missing }
@@ -126,7 +135,7 @@ def getModule (D : Disk) (st : St) (m : Mod) : Bool × St :=
   if m ∈ st.ctx then (true, st) else
   match get st.mcache m with
   | some c =>
-    if stat D m ≠ some c.mtime then
+    if changedB st.lt (stat D m) c.mtime then
       load D { st with mcache := st.mcache.filter (fun p => p.1 ≠ m) } m
     else (true, { st with ctx := m :: st.ctx })
   | none => load D st m
@@ -364,7 +373,7 @@ def runQuery (D : Disk) (n : Nat) (st : St) : Query → Except Err (Ans × St)
         .ok (.undefined (reads.filter (fun x => !((exportedNames t).filter (fun x => !hidden x)).contains x)), st2)
 
 def anyChanged (D : Disk) (st : St) : Bool :=
-  st.mcache.any (fun p => stat D p.1 ≠ some p.2.mtime)
+  st.mcache.any (fun p => changedB st.lt (stat D p.1) p.2.mtime)
 
 /-- `Project._appeared` -/
 def appeared (D : Disk) : List Mod → St → Bool × St
@@ -375,7 +384,7 @@ def appeared (D : Disk) : List Mod → St → Bool × St
     | (false, st1) => appeared D rest st1
 
 /-- `_module_cache.clear(); _missing.clear()` (`_norm_cache` is left alone) -/
-def St.cleared (st : St) : St := { St.empty with norm := st.norm }
+def St.cleared (st : St) : St := { St.empty with norm := st.norm, lt := st.lt }
 
 /-- entering `Project.check_changes()` -/
 def checkChanges (v : Variant) (D : Disk) (st : St) : St :=
@@ -384,6 +393,11 @@ def checkChanges (v : Variant) (D : Disk) (st : St) : St :=
   | .pinned => st
   | .coarseOnly => if anyChanged D st then { st with mcache := [] } else st
   | .current =>
+    if anyChanged D st then st.cleared
+    else match appeared D st.missing st with
+      | (true, _) => st.cleared
+      | (false, st1) => st1
+  | .ltChanged =>
     if anyChanged D st then st.cleared
     else match appeared D st.missing st with
       | (true, _) => st.cleared
@@ -400,28 +414,35 @@ def request (v : Variant) (fuel : Nat) (D : Disk) (st : St) (q : Query) : Ans ×
 def fresh (fuel : Nat) (D : Disk) (q : Query) : Ans := (request .current fuel D St.empty q).1
 
 inductive Op
-  | write (m : Mod) (src : Src)     -- create or rewrite; the file gets a new mtime
-  | touch (m : Mod)
+  | write (m : Mod) (mtime : Nat) (src : Src)     -- create or rewrite; the file gets this mtime
+  | touch (m : Mod) (mtime : Nat)                 -- same content, this mtime (nothing if there is no file)
   | request (q : Query)
   deriving DecidableEq, Repr, Inhabited
 
 structure World where
   disk : Disk
-  clock : Nat
   st : St
   deriving DecidableEq, Repr, Inhabited
 
-def World.init (D : Disk) (clock : Nat) : World := ⟨D, clock, St.empty⟩
+def World.init (v : Variant) (D : Disk) : World := ⟨D, { St.empty with lt := v == .ltChanged }⟩
 
-/-- every file's mtime is in the past -/
-def clockOk (D : Disk) (clock : Nat) : Bool := D.all (fun p => p.2.mtime ≤ clock)
+/-- the (file, mtime) pairs a disk has -/
+def seenOf (D : Disk) : List (Mod × Nat) := D.map (fun p => (p.1, p.2.mtime))
+
+/-- every edit changes the file's modification time: each write or touch gives the file an mtime that file
+    has not had before in the history (older or newer, any order) -/
+def freshMtimes : List (Mod × Nat) → List Op → Bool
+  | _, [] => true
+  | seen, .write m t _ :: ops => !seen.contains (m, t) && freshMtimes ((m, t) :: seen) ops
+  | seen, .touch m t :: ops => !seen.contains (m, t) && freshMtimes ((m, t) :: seen) ops
+  | seen, .request _ :: ops => freshMtimes seen ops
 
 def step (v : Variant) (fuel : Nat) (w : World) : Op → World × Option (Disk × Query × Ans)
-  | .write m src => ({ w with disk := (m, ⟨w.clock + 1, src⟩) :: w.disk, clock := w.clock + 1 }, none)
-  | .touch m =>
+  | .write m t src => ({ w with disk := (m, ⟨t, src⟩) :: w.disk }, none)
+  | .touch m t =>
     match get w.disk m with
     | none => (w, none)
-    | some f => ({ w with disk := (m, ⟨w.clock + 1, f.src⟩) :: w.disk, clock := w.clock + 1 }, none)
+    | some f => ({ w with disk := (m, ⟨t, f.src⟩) :: w.disk }, none)
   | .request q =>
     let (a, st) := request v fuel w.disk w.st q
     ({ w with st := st }, some (w.disk, q, a))
@@ -454,7 +475,7 @@ def absSrc (s : Src) : Bool := s.all Item.isAbs
 def absDisk (D : Disk) : Bool := D.all (fun p => absSrc p.2.src)
 
 def Op.isAbs : Op → Bool
-  | .write _ src => absSrc src
+  | .write _ _ src => absSrc src
   | _ => true
 
 /-- a request's answer is trusted unless the recursion limit was hit -/
@@ -464,21 +485,21 @@ def Ans.defined (a : Ans) : Bool := a != .recursion
     every request is answered exactly like a fresh project on the disk of that moment
     (as long as neither of the two runs into the recursion limit) -/
 def Transparent (v : Variant) : Prop :=
-  ∀ (fuel : Nat) (D0 : Disk) (c0 : Nat), clockOk D0 c0 = true → ∀ (ops : List Op),
-    ∀ r, r ∈ run v fuel (World.init D0 c0) ops → r.2.2 ≠ .recursion → fresh fuel r.1 r.2.1 ≠ .recursion →
+  ∀ (fuel : Nat) (D0 : Disk) (ops : List Op), freshMtimes (seenOf D0) ops = true →
+    ∀ r, r ∈ run v fuel (World.init v D0) ops → r.2.2 ≠ .recursion → fresh fuel r.1 r.2.1 ≠ .recursion →
       r.2.2 = fresh fuel r.1 r.2.1
 
 /-- the same for projects whose sources use absolute imports only (relative imports go through
     `_norm_cache`, which `check_changes` never drops) -/
 def TransparentAbs (v : Variant) : Prop :=
-  ∀ (fuel : Nat) (D0 : Disk) (c0 : Nat), clockOk D0 c0 = true → absDisk D0 = true →
-    ∀ (ops : List Op), ops.all Op.isAbs = true →
-    ∀ r, r ∈ run v fuel (World.init D0 c0) ops → r.2.2 ≠ .recursion → fresh fuel r.1 r.2.1 ≠ .recursion →
+  ∀ (fuel : Nat) (D0 : Disk), absDisk D0 = true →
+    ∀ (ops : List Op), freshMtimes (seenOf D0) ops = true → ops.all Op.isAbs = true →
+    ∀ r, r ∈ run v fuel (World.init v D0) ops → r.2.2 ≠ .recursion → fresh fuel r.1 r.2.1 ≠ .recursion →
       r.2.2 = fresh fuel r.1 r.2.1
 
 /-- the same, checked on one history -/
-def transparentOn (v : Variant) (fuel : Nat) (D0 : Disk) (c0 : Nat) (ops : List Op) : Bool :=
-  (run v fuel (World.init D0 c0) ops).all (fun r =>
+def transparentOn (v : Variant) (fuel : Nat) (D0 : Disk) (ops : List Op) : Bool :=
+  (run v fuel (World.init v D0) ops).all (fun r =>
     decide (r.2.2 = .recursion) || decide (fresh fuel r.1 r.2.1 = .recursion) ||
     decide (r.2.2 = fresh fuel r.1 r.2.1))
 
